@@ -219,7 +219,12 @@ impl From<u16> for MessageType {
 //@spec
     ensures r.method.0 == rfc_method_of(value & 0x3FFFu16), r.method.0 <= 0x0FFF,
         spec_class_bits(r.class) == rfc_class_of(value & 0x3FFFu16),
-//@after "let val ="
+//@before "let class_u8: u8"
+    proof { lemma_bitops_commute(); }
+//@?val     assert((((val & 0x0100u16) >> 7u16) | ((val & 0x0010u16) >> 4u16)) <= 3u16) by (bit_vector);
+//@?val     assert((((val & 0x3E00u16) >> 2u16) | ((val & 0x00E0u16) >> 1u16) | (val & 0x000Fu16)) <= 0x0FFFu16) by (bit_vector);
+//@before "let method_u16: u16"
+    // (the same two facts again: whichever of the two conversions comes first in the code finds them in front of it)
 //@?val     assert((((val & 0x0100u16) >> 7u16) | ((val & 0x0010u16) >> 4u16)) <= 3u16) by (bit_vector);
 //@?val     assert((((val & 0x3E00u16) >> 2u16) | ((val & 0x00E0u16) >> 1u16) | (val & 0x000Fu16)) <= 0x0FFFu16) by (bit_vector);
 //@end
